@@ -82,6 +82,29 @@ Theorem C08_reencode_stable : forall S E, str_laws S -> wf_env E = true ->
   encode_struct S E fuel s v' = encode_struct S E fuel s vs.
 Proof. intros S E L W. apply reencode_stable; auto. apply wf_env_increasing; assumption. Qed.
 
+(* IDs are unchanged by store/load: DataAccess stores Encode v; a getter decodes the stored bytes (leniently for headers,
+   strictly for transactions) and the ID is the hash of the stored bytes / of the re-encoding of the loaded value.  The hash
+   is arbitrary (an argument).  Hypothesis [full]: no nil nested message (every producer of headers sets aggregateCommit). *)
+Theorem C08_id_stable_store_load : forall S E (hash : list N -> list N), str_laws S -> wf_env E = true ->
+  forall fuel s vs, wt_struct S E fuel s vs -> full fuel vs -> increasing 0 s = true ->
+  (Z.of_nat (List.length (encode_struct S E fuel s vs)) < 2^62)%Z ->
+  let stored := encode_struct S E fuel s vs in
+  exists v', Decode S E fuel s stored = Ok v' /\
+             hash stored = id_of S E hash fuel s vs /\
+             id_of S E hash fuel s v' = id_of S E hash fuel s vs /\
+             encode_struct S E fuel s v' = stored.
+Proof. intros S E hash L W. apply id_stable_store_load; auto. apply wf_env_increasing; assumption. Qed.
+
+Theorem C08_id_stable_store_load_strict : forall S E (hash : list N -> list N), str_laws S -> wf_env E = true ->
+  forall fuel s vs, wt_struct S E (Datatypes.S fuel) s vs -> full (Datatypes.S fuel) vs -> Forall not_nil vs ->
+  increasing 0 s = true ->
+  (Z.of_nat (List.length (encode_struct S E (Datatypes.S fuel) s vs)) < 2^62)%Z ->
+  let stored := encode_struct S E (Datatypes.S fuel) s vs in
+  exists v', DecodeStrict S E (Datatypes.S fuel) s stored = Ok v' /\
+             id_of S E hash (Datatypes.S fuel) s v' = id_of S E hash (Datatypes.S fuel) s vs /\
+             encode_struct S E (Datatypes.S fuel) s v' = stored.
+Proof. intros S E hash L W. apply id_stable_store_load_strict; auto. apply wf_env_increasing; assumption. Qed.
+
 (* strict decoding of a flat schema accepts only the canonical byte string *)
 Theorem C08_strict_accepts_only_canonical : forall S E, str_laws S ->
   forall fuel s d vs, flat_canon s = true -> increasing 0 s = true -> bytes_ok d -> (Z.of_nat (List.length d) < 2^62)%Z ->
@@ -163,3 +186,43 @@ Example C08_tx_example :
   DecodeStrict id_strops schemas_env (Datatypes.S max_depth) tx_schema
     (encode_struct id_strops schemas_env (Datatypes.S max_depth) tx_schema v) = Ok v.
 Proof. split; [cbn; repeat split; reflexivity|vm_compute; reflexivity]. Qed.
+
+(* nested instances: a block header (with its aggregate commit) and a block (header, two transactions, one asset) *)
+Definition ex_header : list value :=
+  [VU 2; VU 1700000000; VU (2^32 - 1); VBytes (repeat 7 32); VBytes (repeat 9 20); VBytes []; VBytes [1]; VBytes [2]; VBytes [3];
+   VU 5; VU 4; VBool true; VBytes [4]; VMsg (Some [VU 3; VBytes [255]; VBytes (repeat 1 96)]); VBytes (repeat 8 64)].
+Definition ex_tx : list value :=
+  [VBytes [116]; VBytes [120]; VU 5; VU (2^64 - 1); VBytes [1; 2]; VBytes []; VBytesL [[7]; []]].
+Definition ex_block : list value :=
+  [VMsg (Some ex_header); VMsgs [ex_tx; ex_tx]; VMsgs [[VBytes [97]; VBytes [0; 1]]]].
+
+Ltac solve_wt := vm_compute; repeat (first [exact I | reflexivity | split | (eexists; split; [reflexivity|]) | constructor]).
+
+Example C08_header_example :
+  wt_struct id_strops schemas_env (Datatypes.S max_depth) enc_pkg_blockchain_BlockHeader ex_header /\
+  full (Datatypes.S max_depth) ex_header /\
+  Decode id_strops schemas_env (Datatypes.S max_depth) enc_pkg_blockchain_BlockHeader
+    (encode_struct id_strops schemas_env (Datatypes.S max_depth) enc_pkg_blockchain_BlockHeader ex_header) = Ok ex_header.
+Proof. split; [solve_wt|]. split; [solve_wt|vm_compute; reflexivity]. Qed.
+
+Example C08_block_example :
+  wt_struct id_strops schemas_env (Datatypes.S max_depth) enc_pkg_blockchain_Block ex_block /\
+  full (Datatypes.S max_depth) ex_block /\
+  Decode id_strops schemas_env (Datatypes.S max_depth) enc_pkg_blockchain_Block
+    (encode_struct id_strops schemas_env (Datatypes.S max_depth) enc_pkg_blockchain_Block ex_block) = Ok ex_block /\
+  DecodeStrict id_strops schemas_env (Datatypes.S max_depth) enc_pkg_blockchain_Block
+    (encode_struct id_strops schemas_env (Datatypes.S max_depth) enc_pkg_blockchain_Block ex_block) = Ok ex_block.
+Proof. split; [solve_wt|]. split; [solve_wt|]. split; vm_compute; reflexivity. Qed.
+
+(* the generic theorem applied to the nested example (its hypotheses are the first two conjuncts above) *)
+Example C08_block_example_by_theorem :
+  Decode id_strops schemas_env (Datatypes.S max_depth) enc_pkg_blockchain_Block
+    (encode_struct id_strops schemas_env (Datatypes.S max_depth) enc_pkg_blockchain_Block ex_block)
+  = Ok (canon_struct id_strops schemas_env (Datatypes.S max_depth) enc_pkg_blockchain_Block ex_block).
+Proof.
+  apply (C08_all_generated_structs_roundtrip id_strops) with (nm := "pkg/blockchain.Block"%string).
+  - split; intros; [split; reflexivity|reflexivity].
+  - reflexivity.
+  - apply C08_block_example.
+  - vm_compute. reflexivity.
+Qed.
